@@ -45,7 +45,11 @@ pub fn clause_op(clause: &str) -> &str {
     let last = clause.rsplit(' ').next().unwrap_or("");
     if clause.starts_with("C03 panic") {
         // "C03 panic <op>: msg"
-        return clause.split(' ').nth(2).unwrap_or("pair").trim_end_matches(':');
+        return clause
+            .split(' ')
+            .nth(2)
+            .unwrap_or("pair")
+            .trim_end_matches(':');
     }
     match last {
         "intersection" | "union" | "difference" | "xor" => last,
@@ -77,7 +81,15 @@ pub fn complex_case_json(prop: &str, fam: &str, enc: Enc, a: u32, b: u32, ft: Ft
 }
 
 /// All oracles wanted, on one ordered pair of one complex family. Returns clause strings.
-pub fn complex_pair(fam: &Family, enc: Enc, a: u32, b: u32, ft: Ft, want: &Want, loc: &mut Local) -> Vec<String> {
+pub fn complex_pair(
+    fam: &Family,
+    enc: Enc,
+    a: u32,
+    b: u32,
+    ft: Ft,
+    want: &Want,
+    loc: &mut Local,
+) -> Vec<String> {
     let cx = &fam.cx;
     let (pa, pb) = (&fam.enc(enc)[a as usize], &fam.enc(enc)[b as usize]);
     let mut cl: Vec<String> = vec![];
@@ -108,7 +120,10 @@ pub fn complex_pair(fam: &Family, enc: Enc, a: u32, b: u32, ft: Ft, want: &Want,
                 cl.push(format!("C03 events-above-bound {}", op_name(op)));
             }
             if n > 0 {
-                loc.max("max_events_over_2n2", o.events as f64 / (2.0 * (n * n) as f64));
+                loc.max(
+                    "max_events_over_2n2",
+                    o.events as f64 / (2.0 * (n * n) as f64),
+                );
             }
         }
         if want.c01 {
@@ -146,7 +161,10 @@ pub fn complex_pair(fam: &Family, enc: Enc, a: u32, b: u32, ft: Ft, want: &Want,
             ring_checks(&res, !shortcut, &mut v);
             provenance(pa, pb, &res, 0.0, &mut v);
             // exactness: every coordinate is a vertex of the complex (all true intersection points are)
-            if mp_edges(&res).iter().any(|&(p, q)| cx.decompose(p, q).is_none()) {
+            if mp_edges(&res)
+                .iter()
+                .any(|&(p, q)| cx.decompose(p, q).is_none())
+            {
                 v.push("C04 inexact-coordinate");
             }
             v.sort();
@@ -160,8 +178,16 @@ pub fn complex_pair(fam: &Family, enc: Enc, a: u32, b: u32, ft: Ft, want: &Want,
     if want.c05 {
         let o = call_full(pb, pa, Operation::Difference, ft, Pairing::MM);
         loc.transitions += 1;
-        if let (Some(i), Some(u), Some(d), Some(x), Ok(e)) = (&results[0], &results[1], &results[2], &results[3], &o.res) {
-            let (mi, mu, md, mx, me) = (cx.mask_of(i).0, cx.mask_of(u).0, cx.mask_of(d).0, cx.mask_of(x).0, cx.mask_of(e).0);
+        if let (Some(i), Some(u), Some(d), Some(x), Ok(e)) =
+            (&results[0], &results[1], &results[2], &results[3], &o.res)
+        {
+            let (mi, mu, md, mx, me) = (
+                cx.mask_of(i).0,
+                cx.mask_of(u).0,
+                cx.mask_of(d).0,
+                cx.mask_of(x).0,
+                cx.mask_of(e).0,
+            );
             if mi & md != 0 || mi & me != 0 || md & me != 0 {
                 cl.push("C05 parts-not-disjoint".into());
             }
@@ -191,7 +217,14 @@ pub fn complex_pair(fam: &Family, enc: Enc, a: u32, b: u32, ft: Ft, want: &Want,
 
 pub fn sweep_complex(st: &Stats, prop: &str, fam: &Family, enc: Enc, ft: Ft, want: &Want) {
     let n = fam.cx.noperands();
-    st.family(&format!("{}/{}/{} ({} operands, {} ordered pairs)", fam.cx.name, enc.name(), ft.name(), n, n as u64 * n as u64));
+    st.family(&format!(
+        "{}/{}/{} ({} operands, {} ordered pairs)",
+        fam.cx.name,
+        enc.name(),
+        ft.name(),
+        n,
+        n as u64 * n as u64
+    ));
     (0..n).into_par_iter().for_each(|a| {
         let mut loc = Local::default();
         for b in 0..n {
@@ -203,7 +236,11 @@ pub fn sweep_complex(st: &Stats, prop: &str, fam: &Family, enc: Enc, ft: Ft, wan
             for c in cl {
                 loc.violation(
                     &c,
-                    finding_key(prop, &format!("{}:{}:{}:{}:{}", fam.cx.name, enc.name(), a, b, ft.name()), &c),
+                    finding_key(
+                        prop,
+                        &format!("{}:{}:{}:{}:{}", fam.cx.name, enc.name(), a, b, ft.name()),
+                        &c,
+                    ),
                     complex_case_json(prop, &fam.cx.name, enc, a, b, ft),
                 );
             }
@@ -239,7 +276,9 @@ impl TableSpec {
             kind: v["tkind"].as_str().unwrap().into(),
             seed: v["seed"].as_u64().unwrap(),
             n: v["n"].as_u64().unwrap() as usize,
-            scale: f64::from_bits(u64::from_str_radix(v["scale_bits"].as_str().unwrap(), 16).unwrap()),
+            scale: f64::from_bits(
+                u64::from_str_radix(v["scale_bits"].as_str().unwrap(), 16).unwrap(),
+            ),
             f32: v["f32"].as_bool().unwrap(),
         }
     }
@@ -272,10 +311,19 @@ pub fn lattice_table(name: &str, shear: bool, twopart: bool) -> Table {
     for y in 0..3 {
         for x in 0..3 {
             let (x, y) = (x as f64, y as f64);
-            pts.push(if shear { (0.1 * x + 0.037 * y, 0.1 * y) } else { (x, y) });
+            pts.push(if shear {
+                (0.1 * x + 0.037 * y, 0.1 * y)
+            } else {
+                (x, y)
+            });
         }
     }
-    let mut t = Table { name: name.into(), pts: pts.clone(), ops: vec![], n_tri: 0 };
+    let mut t = Table {
+        name: name.into(),
+        pts: pts.clone(),
+        ops: vec![],
+        n_tri: 0,
+    };
     let mut tris = vec![];
     // orientation decided on the integer lattice (the shear preserves it)
     let ip = |i: usize| ((i % 3) as f64, (i / 3) as f64);
@@ -284,7 +332,11 @@ pub fn lattice_table(name: &str, shear: bool, twopart: bool) -> Table {
             for k in j + 1..9 {
                 let o = orient(ip(i), ip(j), ip(k));
                 if o != 0.0 {
-                    tris.push(if o > 0.0 { vec![i, j, k] } else { vec![i, k, j] });
+                    tris.push(if o > 0.0 {
+                        vec![i, j, k]
+                    } else {
+                        vec![i, k, j]
+                    });
                 }
             }
         }
@@ -293,7 +345,12 @@ pub fn lattice_table(name: &str, shear: bool, twopart: bool) -> Table {
     for tr in &tris {
         let mp = geo_types::MultiPolygon(vec![poly_from(&ring(tr), &[])]);
         let edges = mp_edges(&mp);
-        t.ops.push(Operand { kind: Kind::Tri, idx: tr.clone(), mp, edges });
+        t.ops.push(Operand {
+            kind: Kind::Tri,
+            idx: tr.clone(),
+            mp,
+            edges,
+        });
     }
     t.n_tri = t.ops.len();
     if twopart {
@@ -315,13 +372,23 @@ pub fn lattice_table(name: &str, shear: bool, twopart: bool) -> Table {
                     }
                 }
                 // a vertex of one strictly inside the other, or identical triangles
-                let inside = |p: P, r: &Vec<P>| orient(r[0], r[1], p) > 0.0 && orient(r[1], r[2], p) > 0.0 && orient(r[2], r[0], p) > 0.0;
+                let inside = |p: P, r: &Vec<P>| {
+                    orient(r[0], r[1], p) > 0.0
+                        && orient(r[1], r[2], p) > 0.0
+                        && orient(r[2], r[0], p) > 0.0
+                };
                 if ra.iter().any(|&p| inside(p, &rb)) || rb.iter().any(|&p| inside(p, &ra)) {
                     bad = true;
                 }
                 // centroid-of-union checks for containment without interior vertices (e.g. same vertex set rotated)
-                let ca = ((ra[0].0 + ra[1].0 + ra[2].0) / 3.0, (ra[0].1 + ra[1].1 + ra[2].1) / 3.0);
-                let cb = ((rb[0].0 + rb[1].0 + rb[2].0) / 3.0, (rb[0].1 + rb[1].1 + rb[2].1) / 3.0);
+                let ca = (
+                    (ra[0].0 + ra[1].0 + ra[2].0) / 3.0,
+                    (ra[0].1 + ra[1].1 + ra[2].1) / 3.0,
+                );
+                let cb = (
+                    (rb[0].0 + rb[1].0 + rb[2].0) / 3.0,
+                    (rb[0].1 + rb[1].1 + rb[2].1) / 3.0,
+                );
                 if inside(ca, &rb) || inside(cb, &ra) {
                     bad = true;
                 }
@@ -340,11 +407,17 @@ pub fn lattice_table(name: &str, shear: bool, twopart: bool) -> Table {
         }
         let mut ops2 = vec![];
         for (a, b) in two {
-            let mp = geo_types::MultiPolygon(vec![poly_from(&ring(&a), &[]), poly_from(&ring(&b), &[])]);
+            let mp =
+                geo_types::MultiPolygon(vec![poly_from(&ring(&a), &[]), poly_from(&ring(&b), &[])]);
             let edges = mp_edges(&mp);
             let mut idx = a.clone();
             idx.extend(b.iter());
-            ops2.push(Operand { kind: Kind::TwoPart, idx, mp, edges });
+            ops2.push(Operand {
+                kind: Kind::TwoPart,
+                idx,
+                mp,
+                edges,
+            });
         }
         t.ops.extend(ops2);
     }
@@ -362,7 +435,15 @@ pub struct TableOut {
 }
 
 /// All oracles wanted on one ordered pair of table operands.
-pub fn table_pair(t: &Table, spec: &TableSpec, ia: usize, ib: usize, ft: Ft, want: &Want, loc: &mut Local) -> TableOut {
+pub fn table_pair(
+    t: &Table,
+    spec: &TableSpec,
+    ia: usize,
+    ib: usize,
+    ft: Ft,
+    want: &Want,
+    loc: &mut Local,
+) -> TableOut {
     let (a, b) = (&t.ops[ia], &t.ops[ib]);
     let tol = spec.tol(ft);
     let mut edges = a.edges.clone();
@@ -371,11 +452,21 @@ pub fn table_pair(t: &Table, spec: &TableSpec, ia: usize, ib: usize, ft: Ft, wan
     let exact_family = spec.kind != "P";
     // self-crossing operands are in the domain of the region clause of C01 only
     let valid = a.kind != Kind::Bowtie && b.kind != Kind::Bowtie;
-    let want = &Want { c01: want.c01, c02: want.c02 && valid, c03: want.c03, c04: want.c04 && valid, c05: want.c05 && valid };
+    let want = &Want {
+        c01: want.c01,
+        c02: want.c02 && valid,
+        c03: want.c03,
+        c04: want.c04 && valid,
+        c05: want.c05 && valid,
+    };
     let mut cl: Vec<String> = vec![];
     let mut results: Vec<Option<MP>> = vec![];
     let n = edges.len() as u64;
-    let truth: Vec<(bool, bool)> = wit.pts.iter().map(|&w| (evenodd(&a.mp, w), evenodd(&b.mp, w))).collect();
+    let truth: Vec<(bool, bool)> = wit
+        .pts
+        .iter()
+        .map(|&w| (evenodd(&a.mp, w), evenodd(&b.mp, w)))
+        .collect();
     for op in OPS {
         let o = call_full(&a.mp, &b.mp, op, ft, Pairing::MM);
         loc.transitions += 1;
@@ -400,7 +491,10 @@ pub fn table_pair(t: &Table, spec: &TableSpec, ia: usize, ib: usize, ft: Ft, wan
             if o.events > event_bound(n) {
                 cl.push(format!("C03 events-above-bound {}", op_name(op)));
             }
-            loc.max("max_events_over_2n2", o.events as f64 / (2.0 * (n * n) as f64));
+            loc.max(
+                "max_events_over_2n2",
+                o.events as f64 / (2.0 * (n * n) as f64),
+            );
         }
         if want.c01 {
             let mut bad = false;
@@ -454,7 +548,9 @@ pub fn table_pair(t: &Table, spec: &TableSpec, ia: usize, ib: usize, ft: Ft, wan
     if want.c05 {
         let o = call_full(&b.mp, &a.mp, Operation::Difference, ft, Pairing::MM);
         loc.transitions += 1;
-        if let (Some(i), Some(u), Some(d), Some(x), Ok(e)) = (&results[0], &results[1], &results[2], &results[3], &o.res) {
+        if let (Some(i), Some(u), Some(d), Some(x), Ok(e)) =
+            (&results[0], &results[1], &results[2], &results[3], &o.res)
+        {
             let (mut nd, mut nc, mut nx) = (false, false, false);
             for &w in &wit.pts {
                 let inn = |m: &MP| polywise(m, w) >= 1;
@@ -480,7 +576,16 @@ pub fn table_pair(t: &Table, spec: &TableSpec, ia: usize, ib: usize, ft: Ft, wan
             }
             let (ai, au, ad, ax, ae) = (mp_area(i), mp_area(u), mp_area(d), mp_area(x), mp_area(e));
             let mag = max_abs_coord(&[&a.mp, &b.mp]);
-            let atol = if exact_family && ft == Ft::F64 { 1e-9 * mag * mag } else { (if ft == Ft::F32 || spec.f32 { 1e-4 } else { 1e-9 }) * mag * mag };
+            let atol = if exact_family && ft == Ft::F64 {
+                1e-9 * mag * mag
+            } else {
+                (if ft == Ft::F32 || spec.f32 {
+                    1e-4
+                } else {
+                    1e-9
+                }) * mag
+                    * mag
+            };
             let close = |p: f64, q: f64| (p - q).abs() <= atol;
             if !close(ax, au - ai) {
                 cl.push("C05 area(X)!=area(U)-area(I)".into());
@@ -501,7 +606,11 @@ pub fn table_pair(t: &Table, spec: &TableSpec, ia: usize, ib: usize, ft: Ft, wan
             loc.add("c05_skipped_panicking_pairs", 1);
         }
     }
-    TableOut { clauses: cl, sides: wit.sides, skipped: wit.skipped }
+    TableOut {
+        clauses: cl,
+        sides: wit.sides,
+        skipped: wit.skipped,
+    }
 }
 
 /// which ordered pairs of a table are enumerated
@@ -542,12 +651,27 @@ pub fn sweep_table(st: &Stats, prop: &str, spec: &TableSpec, ft: Ft, want: &Want
             }
             let out = table_pair(&t, spec, ia, ib, ft, want, &mut loc);
             loc.add("witness_sides", out.sides as u64);
-            loc.add(if spec.kind == "P" { "faces_skipped_general_position_tables" } else { "faces_skipped_lattice_triangles" }, out.skipped as u64);
+            loc.add(
+                if spec.kind == "P" {
+                    "faces_skipped_general_position_tables"
+                } else {
+                    "faces_skipped_lattice_triangles"
+                },
+                out.skipped as u64,
+            );
             for c in out.clauses {
                 let mut case = table_case_json(prop, spec, ia, ib, ft);
                 case["A"] = hex(&a.mp);
                 case["B"] = hex(&b.mp);
-                loc.violation(&c, finding_key(prop, &format!("{}:{}:{}:{}", spec.name, ia, ib, ft.name()), &c), case);
+                loc.violation(
+                    &c,
+                    finding_key(
+                        prop,
+                        &format!("{}:{}:{}:{}", spec.name, ia, ib, ft.name()),
+                        &c,
+                    ),
+                    case,
+                );
             }
         }
         cnt.fetch_add(loc.states, std::sync::atomic::Ordering::Relaxed);
@@ -557,7 +681,14 @@ pub fn sweep_table(st: &Stats, prop: &str, spec: &TableSpec, ft: Ft, want: &Want
     for o in &t.ops {
         *kinds.entry(o.kind.name()).or_insert(0u32) += 1;
     }
-    st.family(&format!("{}/{} ({} operands {:?}, {} ordered pairs)", spec.name, ft.name(), n, kinds, cnt.into_inner()));
+    st.family(&format!(
+        "{}/{} ({} operands {:?}, {} ordered pairs)",
+        spec.name,
+        ft.name(),
+        n,
+        kinds,
+        cnt.into_inner()
+    ));
     if n > 3 {
         st.sample(json!({"table": spec.json(), "a": 1, "b": n - 2, "A": hex(&t.ops[1].mp), "B": hex(&t.ops[n - 2].mp), "ops": "all four", "ft": ft.name()}));
     }
@@ -572,7 +703,12 @@ thread_local! {
 }
 
 pub fn family_cached(name: &str) -> std::rc::Rc<Family> {
-    FAM_CACHE.with(|c| c.borrow_mut().entry(name.into()).or_insert_with(|| std::rc::Rc::new(Family::new(name))).clone())
+    FAM_CACHE.with(|c| {
+        c.borrow_mut()
+            .entry(name.into())
+            .or_insert_with(|| std::rc::Rc::new(Family::new(name)))
+            .clone()
+    })
 }
 
 pub fn ft_from(s: &str) -> Ft {
@@ -599,14 +735,23 @@ pub fn replay(case: &Value, verbose: bool) -> Vec<String> {
         "complex" => {
             let fam = family_cached(case["family"].as_str().unwrap());
             let enc = enc_from(case["enc"].as_str().unwrap());
-            let (a, b) = (case["a"].as_u64().unwrap() as u32, case["b"].as_u64().unwrap() as u32);
+            let (a, b) = (
+                case["a"].as_u64().unwrap() as u32,
+                case["b"].as_u64().unwrap() as u32,
+            );
             if verbose {
                 let (pa, pb) = (&fam.enc(enc)[a as usize], &fam.enc(enc)[b as usize]);
                 println!("A = {}", hex(pa));
                 println!("B = {}", hex(pb));
                 for op in OPS {
                     match call_full(pa, pb, op, ft, Pairing::MM).res {
-                        Ok(r) => println!("{} -> {}  (model mask {:#b}, read back {:#b})", op_name(op), hex(&r), model(a, b, op), fam.cx.mask_of(&r).0),
+                        Ok(r) => println!(
+                            "{} -> {}  (model mask {:#b}, read back {:#b})",
+                            op_name(op),
+                            hex(&r),
+                            model(a, b, op),
+                            fam.cx.mask_of(&r).0
+                        ),
                         Err(e) => println!("{} -> PANIC {e}", op_name(op)),
                     }
                 }
@@ -616,7 +761,10 @@ pub fn replay(case: &Value, verbose: bool) -> Vec<String> {
         "table" => {
             let spec = TableSpec::from_json(&case["table"]);
             let t = spec.build();
-            let (a, b) = (case["a"].as_u64().unwrap() as usize, case["b"].as_u64().unwrap() as usize);
+            let (a, b) = (
+                case["a"].as_u64().unwrap() as usize,
+                case["b"].as_u64().unwrap() as usize,
+            );
             if verbose {
                 println!("A = {}", hex(&t.ops[a].mp));
                 println!("B = {}", hex(&t.ops[b].mp));
@@ -640,12 +788,36 @@ pub fn replay(case: &Value, verbose: bool) -> Vec<String> {
 pub const QUICK_COMPLEX: [&str; 7] = ["G22", "G32", "G23", "G33", "T22", "O21", "O12"];
 pub const THOROUGH_COMPLEX: [&str; 6] = ["G43", "G34", "T32", "T23", "O31", "O13"];
 
+/// Point table spec. Tables that are used in single precision have a FIXED seed: in f32 the
+/// near-degeneracies behind finding N2 (one-ulp bump at a shared end point) are hit by roughly one
+/// table in five, so the failing members are listed individually in known_findings.jsonl, which is only
+/// possible for a table that does not change with VERIF_SEED. f64 tables follow VERIF_SEED.
+pub const F32_TABLE_SEED: u64 = 1;
 pub fn p_spec(n: usize, seed: u64, scale: f64, f32: bool) -> TableSpec {
-    let sc = if scale == 1.0 { "".to_string() } else { format!("x{:.4e}", scale) };
-    TableSpec { name: format!("P{n}s{seed}{sc}{}", if f32 { "r32" } else { "" }), kind: "P".into(), seed, n, scale, f32 }
+    let seed = if f32 { F32_TABLE_SEED } else { seed };
+    let sc = if scale == 1.0 {
+        "".to_string()
+    } else {
+        format!("x{:.4e}", scale)
+    };
+    TableSpec {
+        name: format!("P{n}s{seed}{sc}{}", if f32 { "r32" } else { "" }),
+        kind: "P".into(),
+        seed,
+        n,
+        scale,
+        f32,
+    }
 }
 pub fn l_spec(kind: &str) -> TableSpec {
-    TableSpec { name: kind.into(), kind: kind.into(), seed: 0, n: 9, scale: 1.0, f32: false }
+    TableSpec {
+        name: kind.into(),
+        kind: kind.into(),
+        seed: 0,
+        n: 9,
+        scale: 1.0,
+        f32: false,
+    }
 }
 
 pub const RULE: &str = "state = ordered operand pair of a finite family (every union of faces of a cell complex in two encodings; every triangle/quadrilateral/bow-tie/holed/two-part operand over a hashed point table; every lattice triangle over {0,1,2}^2), transition = one call of the real implementation compared with the reference model (bitmask algebra / exact even-odd membership at one witness per arrangement face); non-trivial = both operands non-empty and their boundaries share at least one point";
@@ -669,19 +841,68 @@ pub fn run(prop: &str, tier: &str) -> i32 {
         }
     }
     if !thorough {
-        sweep_table(&st, prop, &p_spec(9, seed, 1.0, false), Ft::F64, &want, PairSet::WithTriangle);
+        sweep_table(
+            &st,
+            prop,
+            &p_spec(9, seed, 1.0, false),
+            Ft::F64,
+            &want,
+            PairSet::WithTriangle,
+        );
     }
-    sweep_table(&st, prop, &p_spec(9, seed, 1.1 * 1048576.0, false), Ft::F64, &want, PairSet::TrianglesOnly);
-    sweep_table(&st, prop, &p_spec(9, seed, 1e-3, false), Ft::F64, &want, PairSet::TrianglesOnly);
+    sweep_table(
+        &st,
+        prop,
+        &p_spec(9, seed, 1.1 * 1048576.0, false),
+        Ft::F64,
+        &want,
+        PairSet::TrianglesOnly,
+    );
+    sweep_table(
+        &st,
+        prop,
+        &p_spec(9, seed, 1e-3, false),
+        Ft::F64,
+        &want,
+        PairSet::TrianglesOnly,
+    );
     if thorough {
-        sweep_table(&st, prop, &p_spec(9, seed, 1.0, false), Ft::F64, &want, PairSet::All);
-        sweep_table(&st, prop, &p_spec(16, seed, 1.0, false), Ft::F64, &want, PairSet::TrianglesOnly);
-        sweep_table(&st, prop, &p_spec(9, seed + 1, 1.0, false), Ft::F64, &want, PairSet::WithTriangle);
+        sweep_table(
+            &st,
+            prop,
+            &p_spec(9, seed, 1.0, false),
+            Ft::F64,
+            &want,
+            PairSet::All,
+        );
+        sweep_table(
+            &st,
+            prop,
+            &p_spec(16, seed, 1.0, false),
+            Ft::F64,
+            &want,
+            PairSet::TrianglesOnly,
+        );
+        sweep_table(
+            &st,
+            prop,
+            &p_spec(9, seed + 1, 1.0, false),
+            Ft::F64,
+            &want,
+            PairSet::WithTriangle,
+        );
     }
     sweep_table(&st, prop, &l_spec("L2i"), Ft::F64, &want, PairSet::All);
     sweep_table(&st, prop, &l_spec("L2s"), Ft::F64, &want, PairSet::All);
     if thorough {
-        sweep_table(&st, prop, &l_spec("L2i21"), Ft::F64, &want, PairSet::WithTriangle);
+        sweep_table(
+            &st,
+            prop,
+            &l_spec("L2i21"),
+            Ft::F64,
+            &want,
+            PairSet::WithTriangle,
+        );
     }
     finish(
         &st,
